@@ -131,3 +131,1044 @@ Proof.
       * replace (S idx' - 1 + S j0 - j) with (S idx' + j0 - j) by lia. exact Ej.
     + exists d'. split; [exact E'|]. replace (j0 + S n) with (S j0 + n) by lia. exact P'.
 Qed.
+
+Ltac case_bools :=
+  repeat match goal with
+  | |- context [?a <? ?b] => destruct (Nat.ltb_spec a b)
+  | |- context [?a <=? ?b] => destruct (Nat.leb_spec a b)
+  | |- context [?a =? ?b] => destruct (Nat.eqb_spec a b)
+  end; cbn [andb orb negb].
+
+Ltac fin := try reflexivity; try lia; try (f_equal; lia); try (subst; reflexivity).
+
+(** mData[idx] = f(mData[idx], other[idx]) for idx in [0,n) *)
+Lemma combine_loop f o n d :
+  n <= length d -> n <= length o ->
+  exists d', for_up n 0 (combine_at f o) d = Ok d' /\ length d' = length d /\
+    forall j, nth j d' false = if j <? n then f (nth j d false) (nth j o false) else nth j d false.
+Proof.
+  intros Hd Ho.
+  destruct (for_up_inv
+    (fun k dk => length dk = length d /\
+       forall j, nth j dk false = if j <? k then f (nth j d false) (nth j o false) else nth j d false)
+    (combine_at f o) n 0 d) as (d' & E & L & H).
+  - split; [reflexivity|]. intros j. reflexivity.
+  - intros k dk Hk [L H]. unfold combine_at.
+    rewrite get_ok by lia. cbn [bind]. rewrite get_ok by lia. cbn [bind].
+    destruct (put_spec dk k (f (nth k dk false) (nth k o false)) ltac:(lia)) as (dk' & E & L' & H').
+    exists dk'. split; [exact E|]. split; [lia|]. intros j. rewrite H', !H.
+    case_bools; fin.
+  - exists d'. auto.
+Qed.
+
+(** mData[idx] = false for idx in [start, start+n) *)
+Lemma clear_loop start n d :
+  start + n <= length d ->
+  exists d', for_up n start clear_at d = Ok d' /\ length d' = length d /\
+    forall j, nth j d' false = if (start <=? j) && (j <? start + n) then false else nth j d false.
+Proof.
+  intros Hd.
+  destruct (for_up_inv
+    (fun k dk => length dk = length d /\
+       forall j, nth j dk false = if (start <=? j) && (j <? k) then false else nth j d false)
+    clear_at n start d) as (d' & E & L & H).
+  - split; [reflexivity|]. intros j. case_bools; fin.
+  - intros k dk Hk [L H]. unfold clear_at.
+    destruct (put_spec dk k false ltac:(lia)) as (dk' & E & L' & H').
+    exists dk'. split; [exact E|]. split; [lia|]. intros j. rewrite H', H.
+    case_bools; fin.
+  - exists d'. auto.
+Qed.
+
+(** acc[idx + b] = src[idx + a] for idx in [0,n), [src] not modified *)
+Lemma copy_loop_shl (src : bs) pos acc :
+  length src + pos <= length acc ->
+  exists d', for_up (length src) 0 (fun idx acc => do v <- get src idx; put acc (idx + pos) v) acc = Ok d' /\
+    length d' = length acc /\
+    forall j, nth j d' false =
+      if (pos <=? j) && (j <? pos + length src) then nth (j - pos) src false else nth j acc false.
+Proof.
+  intros Ha.
+  destruct (for_up_inv
+    (fun k dk => length dk = length acc /\
+       forall j, nth j dk false =
+         if (pos <=? j) && (j <? pos + k) then nth (j - pos) src false else nth j acc false)
+    (fun idx acc => do v <- get src idx; put acc (idx + pos) v) (length src) 0 acc) as (d' & E & L & H).
+  - split; [reflexivity|]. intros j. case_bools; fin.
+  - intros k dk Hk [L H]. cbn beta. rewrite get_ok by lia. cbn [bind].
+    destruct (put_spec dk (k + pos) (nth k src false) ltac:(lia)) as (dk' & E & L' & H').
+    exists dk'. split; [exact E|]. split; [lia|]. intros j. rewrite H', H.
+    case_bools; fin.
+  - exists d'. auto.
+Qed.
+
+Lemma copy_loop_shr (src : bs) pos acc :
+  length src <= length acc ->
+  exists d', for_up (length src - pos) 0 (fun idx acc => do v <- get src (idx + pos); put acc idx v) acc = Ok d' /\
+    length d' = length acc /\
+    forall j, nth j d' false =
+      if j <? length src - pos then nth (j + pos) src false else nth j acc false.
+Proof.
+  intros Ha.
+  destruct (for_up_inv
+    (fun k dk => length dk = length acc /\
+       forall j, nth j dk false = if j <? k then nth (j + pos) src false else nth j acc false)
+    (fun idx acc => do v <- get src (idx + pos); put acc idx v) (length src - pos) 0 acc) as (d' & E & L & H).
+  - split; [reflexivity|]. intros j. reflexivity.
+  - intros k dk Hk [L H]. cbn beta. rewrite get_ok by lia. cbn [bind].
+    destruct (put_spec dk k (nth (k + pos) src false) ltac:(lia)) as (dk' & E & L' & H').
+    exists dk'. split; [exact E|]. split; [lia|]. intros j. rewrite H', H.
+    case_bools; fin.
+  - exists d'. auto.
+Qed.
+
+(** in place, ascending: mData[idx] = mData[idx + pos], pos >= 1 *)
+Lemma move_down_loop pos d :
+  1 <= pos ->
+  exists d', for_up (length d - pos) 0 (fun idx d => do v <- get d (idx + pos); put d idx v) d = Ok d' /\
+    length d' = length d /\
+    forall j, nth j d' false = if j <? length d - pos then nth (j + pos) d false else nth j d false.
+Proof.
+  intros Hp.
+  destruct (for_up_inv
+    (fun k dk => length dk = length d /\
+       forall j, nth j dk false = if j <? k then nth (j + pos) d false else nth j d false)
+    (fun idx d => do v <- get d (idx + pos); put d idx v) (length d - pos) 0 d) as (d' & E & L & H).
+  - split; [reflexivity|]. intros j. reflexivity.
+  - intros k dk Hk [L H]. cbn beta. rewrite get_ok by lia. cbn [bind].
+    destruct (put_spec dk k (nth (k + pos) dk false) ltac:(lia)) as (dk' & E & L' & H').
+    exists dk'. split; [exact E|]. split; [lia|]. intros j. rewrite H', !H.
+    case_bools; fin.
+  - exists d'. auto.
+Qed.
+
+(** in place, descending from the top: mData[idx] = mData[idx - pos] for idx = len-1 .. pos *)
+Lemma move_up_loop pos d :
+  1 <= pos -> pos <= length d ->
+  exists d', for_down (length d - pos) (length d - 1)
+               (fun idx d => do v <- get d (idx - pos); put d idx v) d = Ok d' /\
+    length d' = length d /\
+    forall j, nth j d' false =
+      if (pos <=? j) && (j <? length d) then nth (j - pos) d false else nth j d false.
+Proof.
+  intros Hp Hl.
+  destruct (for_down_inv
+    (fun k dk => length dk = length d /\
+       forall j, nth j dk false =
+         if (length d - k <=? j) && (j <? length d) then nth (j - pos) d false else nth j d false)
+    (fun idx d => do v <- get d (idx - pos); put d idx v) (length d - pos) (length d - 1) d 0)
+    as (d' & E & L & H).
+  - split; [reflexivity|]. intros j. case_bools; fin.
+  - intros k dk Hk [L H]. cbn beta. rewrite get_ok by lia. cbn [bind].
+    destruct (put_spec dk (length d - 1 + 0 - k) (nth (length d - 1 + 0 - k - pos) dk false) ltac:(lia))
+      as (dk' & E & L' & H').
+    exists dk'. split; [exact E|]. split; [lia|]. intros j. rewrite H', !H.
+    case_bools; fin.
+  - exists d'. split; [exact E|]. split; [exact L|]. intros j. rewrite H.
+    case_bools; fin.
+Qed.
+
+(* ------------------------------------------------------------------ *)
+(** * members, pointwise *)
+
+Lemma grow_size_gt pos : pos < grow_size pos.
+Proof. unfold grow_size. lia. Qed.
+
+(** the grow-before-access prefix of set/reset/flip/operator[] *)
+Definition grown (d : bs) (pos : nat) : bs :=
+  if length d <=? pos then vresize d (grow_size pos) false else d.
+Definition grown_len (d : bs) (pos : nat) : nat :=
+  if pos <? length d then length d else grow_size pos.
+
+Lemma grown_spec d pos :
+  length (grown d pos) = grown_len d pos /\ pos < length (grown d pos) /\
+  forall j, nth j (grown d pos) false = nth j d false.
+Proof.
+  unfold grown, grown_len. pose proof (grow_size_gt pos).
+  destruct (Nat.leb_spec (length d) pos); destruct (Nat.ltb_spec pos (length d)); try lia.
+  - rewrite vresize_length. splits; try lia. intros j. rewrite vresize_nth.
+    case_bools; fin; symmetry; apply nth_overflow; lia.
+  - splits; auto.
+Qed.
+
+Lemma grown_put d pos v :
+  exists d', put (grown d pos) pos v = Ok d' /\ length d' = grown_len d pos /\
+    forall j, nth j d' false = if j =? pos then v else nth j d false.
+Proof.
+  destruct (grown_spec d pos) as (L & Hp & H).
+  destruct (put_spec (grown d pos) pos v Hp) as (d' & E & L' & H').
+  exists d'. splits; [exact E|lia|]. intros j. rewrite H', H. reflexivity.
+Qed.
+
+Lemma m_set_pw d pos v :
+  exists d', m_set d pos v = Ok d' /\ length d' = grown_len d pos /\
+    forall j, nth j d' false = if j =? pos then v else nth j d false.
+Proof. apply grown_put. Qed.
+
+Lemma m_reset_pw d pos :
+  exists d', m_reset d pos = Ok d' /\ length d' = grown_len d pos /\
+    forall j, nth j d' false = if j =? pos then false else nth j d false.
+Proof. apply grown_put. Qed.
+
+Lemma m_index_write_pw d pos v :
+  exists d', m_index_write d pos v = Ok d' /\ length d' = grown_len d pos /\
+    forall j, nth j d' false = if j =? pos then v else nth j d false.
+Proof. apply grown_put. Qed.
+
+Lemma m_flip_pw d pos :
+  exists d', m_flip d pos = Ok d' /\ length d' = grown_len d pos /\
+    forall j, nth j d' false = if j =? pos then negb (nth pos d false) else nth j d false.
+Proof.
+  unfold m_flip. fold (grown d pos). destruct (grown_spec d pos) as (L & Hp & H).
+  rewrite get_ok by exact Hp. cbn [bind]. rewrite H. apply grown_put.
+Qed.
+
+Lemma m_index_read_pw d pos :
+  exists d', m_index_read d pos = Ok (d', nth pos d false) /\ length d' = grown_len d pos /\
+    forall j, nth j d' false = nth j d false.
+Proof.
+  unfold m_index_read, m_index_ref. fold (grown d pos). destruct (grown_spec d pos) as (L & Hp & H).
+  rewrite get_ok by exact Hp. cbn [bind]. rewrite H. exists (grown d pos). auto.
+Qed.
+
+Lemma m_and_assign_pw d o :
+  exists d', m_and_assign d o = Ok d' /\ length d' = length d /\
+    forall j, nth j d' false = nth j d false && nth j o false.
+Proof.
+  unfold m_and_assign. destruct (Nat.ltb_spec (length d) (length o)) as [Hlt|Hge].
+  - destruct (combine_loop andb o (length d) d ltac:(lia) ltac:(lia)) as (d' & E & L & H).
+    exists d'. splits; auto. intros j. rewrite H. case_bools; fin.
+    rewrite (nth_overflow d) by lia. reflexivity.
+  - destruct (combine_loop andb o (length o) d ltac:(lia) ltac:(lia)) as (d1 & E1 & L1 & H1).
+    rewrite E1. cbn [bind].
+    destruct (clear_loop (length o) (length d - length o) d1 ltac:(lia)) as (d' & E & L & H).
+    exists d'. splits; [exact E|lia|]. intros j. rewrite H, H1.
+    case_bools; fin.
+    + rewrite (nth_overflow o) by lia. rewrite andb_false_r. reflexivity.
+    + rewrite (nth_overflow d) by lia. reflexivity.
+Qed.
+
+Lemma widen_combine (f : bool -> bool -> bool) d o :
+  (forall a, f a false = a) ->
+  let d1 := if length d <? length o then vresize d (length o) false else d in
+  exists d', for_up (Nat.min (length d1) (length o)) 0 (combine_at f o) d1 = Ok d' /\
+    length d' = Nat.max (length d) (length o) /\
+    forall j, nth j d' false = if j <? Nat.max (length d) (length o)
+                               then f (nth j d false) (nth j o false) else false.
+Proof.
+  intros Hf d1.
+  assert (L1 : length d1 = Nat.max (length d) (length o)).
+  { subst d1. destruct (Nat.ltb_spec (length d) (length o)) as [Hlt|Hge]; [rewrite vresize_length|]; lia. }
+  assert (H1 : forall j, nth j d1 false = nth j d false).
+  { intros j. subst d1. destruct (Nat.ltb_spec (length d) (length o)) as [Hlt|Hge]; [|reflexivity].
+    rewrite vresize_nth. case_bools; fin; symmetry; apply nth_overflow; lia. }
+  destruct (combine_loop f o (Nat.min (length d1) (length o)) d1 ltac:(lia) ltac:(lia)) as (d' & E & L & H).
+  exists d'. splits; [exact E|lia|]. intros j. rewrite H, !H1, L1.
+  case_bools; fin.
+  - rewrite (nth_overflow o) by lia. rewrite Hf. reflexivity.
+  - apply nth_overflow. lia.
+Qed.
+
+Lemma m_or_assign_pw d o :
+  exists d', m_or_assign d o = Ok d' /\ length d' = Nat.max (length d) (length o) /\
+    forall j, nth j d' false = if j <? Nat.max (length d) (length o)
+                               then nth j d false || nth j o false else false.
+Proof. apply (widen_combine orb). apply orb_false_r. Qed.
+
+Lemma m_xor_assign_pw d o :
+  exists d', m_xor_assign d o = Ok d' /\ length d' = Nat.max (length d) (length o) /\
+    forall j, nth j d' false = if j <? Nat.max (length d) (length o)
+                               then xorb (nth j d false) (nth j o false) else false.
+Proof. apply (widen_combine xorb). apply xorb_false_r. Qed.
+
+(** the early return of the four shift operators *)
+Definition shift_noop (d : bs) (pos : nat) : bool := (pos =? 0) || (length d =? 0).
+
+Lemma m_shl_pw d pos : shift_noop d pos = false ->
+  exists d', m_shl d pos = Ok d' /\ length d' = length d + pos /\
+    forall j, nth j d' false = if j <? pos then false else nth (j - pos) d false.
+Proof.
+  intros G. unfold m_shl. fold (shift_noop d pos). rewrite G.
+  destruct (copy_loop_shl d pos (m_ctor (length d + pos))) as (d' & E & L & H).
+  { rewrite m_ctor_length. lia. }
+  exists d'. rewrite m_ctor_length in L. splits; auto. intros j. rewrite H, m_ctor_nth.
+  case_bools; fin. symmetry. apply nth_overflow. lia.
+Qed.
+
+Lemma m_shl_assign_pw d pos : shift_noop d pos = false ->
+  exists d', m_shl_assign d pos = Ok d' /\ length d' = length d + pos /\
+    forall j, nth j d' false = if j <? pos then false else nth (j - pos) d false.
+Proof.
+  intros G. unfold m_shl_assign. fold (shift_noop d pos). rewrite G.
+  unfold shift_noop in G. apply orb_false_elim in G. destruct G as [G1 G2].
+  apply Nat.eqb_neq in G1. apply Nat.eqb_neq in G2.
+  set (d1 := vresize d (length d + pos) false).
+  assert (L1 : length d1 = length d + pos) by apply vresize_length.
+  destruct (move_up_loop pos d1 ltac:(lia) ltac:(lia)) as (d2 & E2 & L2 & H2).
+  rewrite E2. cbn [bind].
+  destruct (clear_loop 0 pos d2 ltac:(lia)) as (d' & E & L & H).
+  exists d'. splits; [exact E|lia|]. intros j. rewrite H, H2. subst d1.
+  rewrite !vresize_nth, vresize_length. case_bools; fin.
+  all: try (symmetry; apply nth_overflow; lia).
+Qed.
+
+Lemma m_shr_pw d pos : shift_noop d pos = false ->
+  exists d', m_shr d pos = Ok d' /\ length d' = length d /\
+    forall j, nth j d' false = nth (j + pos) d false.
+Proof.
+  intros G. unfold m_shr. fold (shift_noop d pos). rewrite G.
+  destruct (copy_loop_shr d pos (m_ctor (length d))) as (d' & E & L & H).
+  { rewrite m_ctor_length. lia. }
+  exists d'. rewrite m_ctor_length in L. splits; auto. intros j. rewrite H, m_ctor_nth.
+  case_bools; fin. symmetry. apply nth_overflow. lia.
+Qed.
+
+Lemma m_shr_assign_pw d pos : shift_noop d pos = false ->
+  exists d', m_shr_assign d pos = Ok d' /\ length d' = length d /\
+    forall j, nth j d' false = nth (j + pos) d false.
+Proof.
+  intros G. unfold m_shr_assign. fold (shift_noop d pos). rewrite G.
+  unfold shift_noop in G. apply orb_false_elim in G. destruct G as [G1 G2].
+  apply Nat.eqb_neq in G1. apply Nat.eqb_neq in G2.
+  destruct (move_down_loop pos d ltac:(lia)) as (d1 & E1 & L1 & H1).
+  rewrite E1. cbn [bind].
+  set (start := if pos <? length d then length d - pos else 0).
+  destruct (clear_loop start (length d - start) d1) as (d' & E & L & H).
+  { subst start. destruct (pos <? length d); lia. }
+  exists d'. splits; [exact E|lia|]. intros j. rewrite H, H1. subst start.
+  case_bools; fin; try (symmetry; apply nth_overflow; lia);
+    rewrite !(nth_overflow d) by lia; reflexivity.
+Qed.
+
+(** the pinned operator>>= : correct up to distance = size, a no-op beyond *)
+Lemma m_shr_assign_pinned_beyond d pos :
+  length d < pos -> m_shr_assign_pinned d pos = Ok d.
+Proof.
+  intros H. unfold m_shr_assign_pinned.
+  destruct ((pos =? 0) || (length d =? 0)); [reflexivity|].
+  replace (length d - pos) with 0 by lia. cbn [for_up bind].
+  apply Nat.ltb_lt in H. rewrite H. reflexivity.
+Qed.
+
+(* ------------------------------------------------------------------ *)
+(** * compound assignment = binary operator *)
+
+Lemma shl_assign_eq_shl d n : m_shl_assign d n = m_shl d n.
+Proof.
+  destruct (shift_noop d n) eqn:G.
+  - unfold m_shl_assign, m_shl. fold (shift_noop d n). rewrite G. reflexivity.
+  - destruct (m_shl_assign_pw d n G) as (d1 & E1 & L1 & H1).
+    destruct (m_shl_pw d n G) as (d2 & E2 & L2 & H2).
+    rewrite E1, E2. f_equal. apply bs_ext; [lia|]. intros j. rewrite H1, H2. reflexivity.
+Qed.
+
+Lemma shr_assign_eq_shr d n : m_shr_assign d n = m_shr d n.
+Proof.
+  destruct (shift_noop d n) eqn:G.
+  - unfold m_shr_assign, m_shr. fold (shift_noop d n). rewrite G. reflexivity.
+  - destruct (m_shr_assign_pw d n G) as (d1 & E1 & L1 & H1).
+    destruct (m_shr_pw d n G) as (d2 & E2 & L2 & H2).
+    rewrite E1, E2. f_equal. apply bs_ext; [lia|]. intros j. rewrite H1, H2. reflexivity.
+Qed.
+
+Lemma m_shl_total d n : exists d', m_shl d n = Ok d'.
+Proof.
+  destruct (shift_noop d n) eqn:G.
+  - exists d. unfold m_shl. fold (shift_noop d n). rewrite G. reflexivity.
+  - destruct (m_shl_pw d n G) as (d' & E & _). eauto.
+Qed.
+
+Lemma m_shr_total d n : exists d', m_shr d n = Ok d'.
+Proof.
+  destruct (shift_noop d n) eqn:G.
+  - exists d. unfold m_shr. fold (shift_noop d n). rewrite G. reflexivity.
+  - destruct (m_shr_pw d n G) as (d' & E & _). eauto.
+Qed.
+
+(* ------------------------------------------------------------------ *)
+(** * observers *)
+
+Lemma repr_map d r : repr d r -> d = map (rbit r) (seq 0 (rsize r)).
+Proof.
+  intros [L H]. apply (nth_ext _ _ false (rbit r 0)).
+  - rewrite map_length, seq_length. exact L.
+  - intros n Hn. rewrite L in Hn. rewrite map_nth, seq_nth by exact Hn. cbn. apply H. exact Hn.
+Qed.
+
+Lemma map_repr r : repr (map (rbit r) (seq 0 (rsize r))) r.
+Proof.
+  split.
+  - rewrite map_length, seq_length. reflexivity.
+  - intros i Hi. rewrite (nth_indep _ false (rbit r 0)) by (rewrite map_length, seq_length; exact Hi).
+    rewrite map_nth, seq_nth by exact Hi. reflexivity.
+Qed.
+
+Lemma m_any_existsb l : m_any l = existsb id l.
+Proof.
+  unfold m_any. induction l as [|b l IH]; [reflexivity|]. cbn [vfind existsb].
+  destruct b; cbn; [reflexivity|]. destruct (vfind true l); cbn in *; exact IH.
+Qed.
+
+Lemma m_all_forallb l : m_all l = forallb id l.
+Proof.
+  unfold m_all. induction l as [|b l IH]; [reflexivity|]. cbn [vfind forallb].
+  destruct b; cbn; [|reflexivity]. destruct (vfind false l); cbn in *; exact IH.
+Qed.
+
+Lemma existsb_map {A} (f : A -> bool) l : existsb id (map f l) = existsb f l.
+Proof. induction l; cbn; [reflexivity|]. rewrite IHl. reflexivity. Qed.
+
+Lemma forallb_map {A} (f : A -> bool) l : forallb id (map f l) = forallb f l.
+Proof. induction l; cbn; [reflexivity|]. rewrite IHl. reflexivity. Qed.
+
+Lemma vcount_map {A} (f : A -> bool) l : vcount (map f l) = length (filter f l).
+Proof. induction l; cbn; [reflexivity|]. destruct (f a); cbn; rewrite IHl; reflexivity. Qed.
+
+Lemma to_ulong_loop_map f n : forall k acc,
+  to_ulong_loop (map f (seq k n)) k acc =
+  if existsb (fun i => 64 <=? i) (filter f (seq k n)) then Err EOverflow
+  else Ok (acc + pow2sum (filter f (seq k n)))%N.
+Proof.
+  induction n as [|n IH]; intros k acc; cbn [seq map to_ulong_loop filter].
+  - cbn. rewrite N.add_0_r. reflexivity.
+  - destruct (f k) eqn:F.
+    + cbn [existsb]. destruct (64 <=? k) eqn:E; [reflexivity|]. cbn [orb]. rewrite IH.
+      destruct (existsb _ _); [reflexivity|]. cbn [pow2sum fold_right]. f_equal.
+      unfold pow2sum. lia.
+    + apply IH.
+Qed.
+
+Lemma veq_true_iff a b : veq a b = true <-> a = b.
+Proof.
+  revert b. induction a as [|x a IH]; intros [|y b]; cbn; split; intros H; try congruence; try discriminate.
+  - apply andb_true_iff in H. destruct H as [H1 H2]. apply eqb_prop in H1. apply IH in H2. congruence.
+  - inversion H; subst. rewrite eqb_reflx. cbn. apply IH. reflexivity.
+Qed.
+
+(* ------------------------------------------------------------------ *)
+(** * iterators *)
+
+Definition bitf (d : bs) (i : nat) : bool := nth i d false.
+(** set positions >= k, ascending *)
+Definition ps_from (d : bs) (k : nat) : list nat := filter (bitf d) (seq k (length d - k)).
+(** set positions < k, ascending *)
+Definition ps_upto (d : bs) (k : nat) : list nat := filter (bitf d) (seq 0 k).
+
+Lemma filter_length_le' {A} (f : A -> bool) l : length (filter f l) <= length l.
+Proof. induction l; cbn; [lia|]. destruct (f a); cbn; lia. Qed.
+
+Lemma filter_seq_head f : forall m k q rest,
+  filter f (seq k m) = q :: rest ->
+  k <= q < k + m /\ f q = true /\ rest = filter f (seq (S q) (k + m - S q)).
+Proof.
+  induction m as [|m IH]; intros k q rest H; cbn in H; [discriminate|].
+  destruct (f k) eqn:F.
+  - inversion H; subst. splits; try lia; auto. f_equal. f_equal. lia.
+  - apply IH in H. destruct H as (H1 & H2 & H3). splits; try lia; auto.
+    rewrite H3. f_equal. f_equal. lia.
+Qed.
+
+Lemma ps_from_step d k : k < length d ->
+  ps_from d k = if nth k d false then k :: ps_from d (S k) else ps_from d (S k).
+Proof.
+  intros H. unfold ps_from. replace (length d - k) with (S (length d - S k)) by lia.
+  cbn [seq filter]. unfold bitf at 1. reflexivity.
+Qed.
+
+Lemma ps_from_end d k : length d <= k -> ps_from d k = [].
+Proof. intros H. unfold ps_from. replace (length d - k) with 0 by lia. reflexivity. Qed.
+
+Lemma ps_from_head d k q rest : k <= length d -> ps_from d k = q :: rest ->
+  k <= q < length d /\ rest = ps_from d (S q).
+Proof.
+  intros Hk H. apply filter_seq_head in H. destruct H as (H1 & _ & H3). split; [lia|].
+  rewrite H3. unfold ps_from. f_equal. f_equal. lia.
+Qed.
+
+Lemma ps_upto_step d k :
+  ps_upto d (S k) = ps_upto d k ++ (if nth k d false then [k] else []).
+Proof. unfold ps_upto. rewrite seq_S, filter_app. cbn. reflexivity. Qed.
+
+Lemma rev_upto_step d k :
+  rev (ps_upto d (S k)) = if nth k d false then k :: rev (ps_upto d k) else rev (ps_upto d k).
+Proof.
+  rewrite ps_upto_step. destruct (nth k d false).
+  - rewrite rev_app_distr. reflexivity.
+  - rewrite app_nil_r. reflexivity.
+Qed.
+
+Lemma rev_upto_head d : forall k q rest,
+  rev (ps_upto d k) = q :: rest -> q < k /\ rest = rev (ps_upto d q).
+Proof.
+  induction k as [|k IH]; intros q rest H; [discriminate|].
+  rewrite rev_upto_step in H. destruct (nth k d false).
+  - inversion H; subst. auto.
+  - apply IH in H. destruct H. split; [lia|assumption].
+Qed.
+
+Lemma ult_size_nat d k : ult_size (Z.of_nat k) d = (k <? length d).
+Proof.
+  unfold ult_size. destruct (Nat.ltb_spec k (length d)).
+  - apply andb_true_iff. split; [apply Z.leb_le|apply Z.ltb_lt]; lia.
+  - apply andb_false_iff. right. apply Z.ltb_ge. lia.
+Qed.
+
+Lemma ult_size_neg d p : (p < 0)%Z -> ult_size p d = false.
+Proof. intros H. unfold ult_size. apply andb_false_iff. left. apply Z.leb_gt. exact H. Qed.
+
+Lemma it_test_nat d k : k < length d -> it_test d (Z.of_nat k) = Ok (nth k d false).
+Proof.
+  intros H. unfold it_test. assert ((Z.of_nat k <? 0)%Z = false) as -> by (apply Z.ltb_ge; lia).
+  rewrite Nat2Z.id. unfold m_test. apply Nat.leb_gt in H. rewrite H. apply get_ok. apply Nat.leb_gt. exact H.
+Qed.
+
+(** reading at or beyond the size is refused, whatever the position *)
+Lemma it_test_outside d p : ult_size p d = false -> it_test d p = Err EOutOfRange.
+Proof.
+  intros H. unfold it_test. destruct (p <? 0)%Z eqn:E; [reflexivity|].
+  apply Z.ltb_ge in E. unfold m_test.
+  assert (length d <=? Z.to_nat p = true) as ->; [|reflexivity].
+  apply Nat.leb_le. unfold ult_size in H. apply andb_false_iff in H. destruct H as [H|H].
+  - apply Z.leb_gt in H. lia.
+  - apply Z.ltb_ge in H. lia.
+Qed.
+
+Lemma fwd_loop_spec d : forall fuel k,
+  k <= length d -> length d - k < fuel ->
+  fwd_loop fuel d (Z.of_nat k - 1) = Ok (Z.of_nat (hd (length d) (ps_from d k))).
+Proof.
+  induction fuel as [|f IH]; intros k Hk Hf; [lia|].
+  cbn [fwd_loop]. replace (Z.of_nat k - 1 + 1)%Z with (Z.of_nat k) by lia.
+  rewrite ult_size_nat. destruct (Nat.ltb_spec k (length d)) as [Hlt|Hge].
+  - rewrite it_test_nat by exact Hlt. cbn [bind]. rewrite ps_from_step by exact Hlt.
+    destruct (nth k d false); [reflexivity|].
+    replace (Z.of_nat k) with (Z.of_nat (S k) - 1)%Z by lia. apply IH; lia.
+  - rewrite ps_from_end by exact Hge. cbn. f_equal. lia.
+Qed.
+
+Lemma it_forward_spec d k : k < length d ->
+  it_forward d (Z.of_nat k) = Ok (Z.of_nat (hd (length d) (ps_from d (S k)))).
+Proof.
+  intros H. unfold it_forward. rewrite ult_size_nat. apply Nat.ltb_lt in H. rewrite H.
+  apply Nat.ltb_lt in H. replace (Z.of_nat k) with (Z.of_nat (S k) - 1)%Z by lia.
+  apply fwd_loop_spec; lia.
+Qed.
+
+Lemma it_forward_end d p : ult_size p d = false -> it_forward d p = Ok p.
+Proof. intros H. unfold it_forward. rewrite H. reflexivity. Qed.
+
+Lemma it_begin_spec d : it_begin d = Ok (Z.of_nat (hd (length d) (ps_from d 0))).
+Proof.
+  unfold it_begin, it_ctor. change 0%Z with (Z.of_nat 0). rewrite ult_size_nat.
+  destruct (Nat.ltb_spec 0 (length d)) as [Hlt|Hge].
+  - rewrite it_test_nat by exact Hlt. cbn [bind]. rewrite (ps_from_step d 0) by exact Hlt.
+    destruct (nth 0 d false); [reflexivity|]. apply it_forward_spec. exact Hlt.
+  - rewrite ps_from_end by exact Hge. cbn. f_equal. lia.
+Qed.
+
+Lemma walk_fwd_spec d : forall fuel k,
+  k <= length d -> length (ps_from d k) < fuel ->
+  walk fuel (it_inc d) (it_end d) (Z.of_nat (hd (length d) (ps_from d k))) =
+  Ok (map Z.of_nat (ps_from d k)).
+Proof.
+  induction fuel as [|f IH]; intros k Hk Hf; [lia|].
+  cbn [walk]. destruct (ps_from d k) as [|q rest] eqn:E.
+  - cbn [hd]. unfold it_end. rewrite Z.eqb_refl. reflexivity.
+  - cbn [hd]. apply ps_from_head in E; [|exact Hk]. destruct E as [Hq ->].
+    unfold it_end. assert ((Z.of_nat q =? Z.of_nat (length d))%Z = false) as -> by (apply Z.eqb_neq; lia).
+    unfold it_inc at 1. rewrite it_forward_spec by lia. cbn [bind].
+    fold (it_end d). rewrite IH; [reflexivity|lia|cbn in Hf; lia].
+Qed.
+
+Lemma iter_fwd_list d : iter_fwd d = Ok (map Z.of_nat (ps_from d 0)).
+Proof.
+  unfold iter_fwd. rewrite it_begin_spec. cbn [bind]. apply walk_fwd_spec; [lia|].
+  unfold ps_from. pose proof (filter_length_le' (bitf d) (seq 0 (length d - 0))) as H.
+  rewrite seq_length in H. lia.
+Qed.
+
+(** reverse direction *)
+Definition last_below (d : bs) (k : nat) : Z :=
+  match rev (ps_upto d k) with [] => (-1)%Z | q :: _ => Z.of_nat q end.
+
+Lemma last_below_step d k :
+  last_below d (S k) = if nth k d false then Z.of_nat k else last_below d k.
+Proof. unfold last_below. rewrite rev_upto_step. destruct (nth k d false); reflexivity. Qed.
+
+Lemma rev_loop_spec d : forall fuel k,
+  k <= length d -> k < fuel -> rev_loop fuel d (Z.of_nat k) = Ok (last_below d k).
+Proof.
+  induction fuel as [|f IH]; intros k Hk Hf; [lia|].
+  cbn [rev_loop]. destruct k as [|k].
+  - cbn. reflexivity.
+  - replace (Z.of_nat (S k) - 1)%Z with (Z.of_nat k) by lia.
+    assert ((0 <=? Z.of_nat k)%Z = true) as -> by (apply Z.leb_le; lia).
+    rewrite it_test_nat by lia. cbn [bind]. rewrite last_below_step.
+    destruct (nth k d false); [reflexivity|]. apply IH; lia.
+Qed.
+
+Lemma it_reverse_spec d k : k <= length d -> it_reverse d (Z.of_nat k) = Ok (last_below d k).
+Proof.
+  intros H. unfold it_reverse. assert ((Z.of_nat k <? 0)%Z = false) as -> by (apply Z.ltb_ge; lia).
+  rewrite Nat2Z.id. apply rev_loop_spec; lia.
+Qed.
+
+Lemma it_rbegin_spec d : it_rbegin d = Ok (last_below d (length d)).
+Proof.
+  unfold it_rbegin, rit_ctor. destruct (length d) as [|n] eqn:L.
+  - cbn. reflexivity.
+  - replace (Z.of_nat (S n) - 1)%Z with (Z.of_nat n) by lia.
+    assert ((0 <=? Z.of_nat n)%Z = true) as -> by (apply Z.leb_le; lia).
+    rewrite it_test_nat by lia. cbn [bind]. rewrite last_below_step.
+    destruct (nth n d false); [reflexivity|]. apply it_reverse_spec. lia.
+Qed.
+
+Lemma walk_rev_spec d : forall fuel k,
+  k <= length d -> k < fuel ->
+  walk fuel (rit_inc d) it_rend (last_below d k) = Ok (map Z.of_nat (rev (ps_upto d k))).
+Proof.
+  induction fuel as [|f IH]; intros k Hk Hf; [lia|].
+  cbn [walk]. destruct (rev (ps_upto d k)) as [|q rest] eqn:E.
+  - assert (last_below d k = (-1)%Z) as -> by (unfold last_below; rewrite E; reflexivity).
+    reflexivity.
+  - assert (last_below d k = Z.of_nat q) as -> by (unfold last_below; rewrite E; reflexivity).
+    apply rev_upto_head in E. destruct E as [Hq ->].
+    unfold it_rend. assert ((Z.of_nat q =? -1)%Z = false) as -> by (apply Z.eqb_neq; lia).
+    unfold rit_inc at 1. rewrite it_reverse_spec by lia. cbn [bind].
+    fold it_rend. rewrite IH by lia. reflexivity.
+Qed.
+
+Lemma iter_rev_list d : iter_rev d = Ok (map Z.of_nat (rev (ps_upto d (length d)))).
+Proof. unfold iter_rev. rewrite it_rbegin_spec. cbn [bind]. apply walk_rev_spec; lia. Qed.
+
+(** walking back with operator-- of the forward iterator *)
+Lemma it_dec_spec d k : k <= length d ->
+  it_dec d (Z.of_nat k) = Ok (Z.of_nat (hd (length d) (rev (ps_upto d k)))).
+Proof.
+  intros H. unfold it_dec. rewrite it_reverse_spec by exact H. cbn [bind]. unfold last_below.
+  destruct (rev (ps_upto d k)) as [|q rest]; cbn [hd].
+  - reflexivity.
+  - assert ((Z.of_nat q <? 0)%Z = false) as -> by (apply Z.ltb_ge; lia). reflexivity.
+Qed.
+
+Lemma walk_back_spec d : forall fuel k,
+  k <= length d -> k < fuel ->
+  walk fuel (it_dec d) (it_end d) (Z.of_nat (hd (length d) (rev (ps_upto d k)))) =
+  Ok (map Z.of_nat (rev (ps_upto d k))).
+Proof.
+  induction fuel as [|f IH]; intros k Hk Hf; [lia|].
+  cbn [walk]. destruct (rev (ps_upto d k)) as [|q rest] eqn:E; cbn [hd].
+  - unfold it_end. rewrite Z.eqb_refl. reflexivity.
+  - apply rev_upto_head in E. destruct E as [Hq ->].
+    unfold it_end. assert ((Z.of_nat q =? Z.of_nat (length d))%Z = false) as -> by (apply Z.eqb_neq; lia).
+    rewrite it_dec_spec by lia. cbn [bind]. fold (it_end d). rewrite IH by lia. reflexivity.
+Qed.
+
+Lemma iter_back_list d : iter_back d = Ok (map Z.of_nat (rev (ps_upto d (length d)))).
+Proof.
+  unfold iter_back, it_end. rewrite it_dec_spec by lia. cbn [bind]. fold (it_end d).
+  apply walk_back_spec; lia.
+Qed.
+
+(** the pinned constructors on an empty bitset *)
+Lemma iter_fwd_pinned_empty : iter_fwd_pinned [] = Err EOutOfRange.
+Proof. reflexivity. Qed.
+Lemma iter_rev_pinned_empty : iter_rev_pinned [] = Err EOutOfRange.
+Proof. reflexivity. Qed.
+
+(* ------------------------------------------------------------------ *)
+(** * a stored bitset and its reference: observers *)
+
+Lemma repr_bit0 d r : repr d r -> forall i, nth i d false = bit0 r i.
+Proof.
+  intros [L H] i. unfold bit0. destruct (Nat.ltb_spec i (rsize r)); [apply H; assumption|].
+  apply nth_overflow. lia.
+Qed.
+
+Lemma repr_positions_from d r : repr d r -> ps_from d 0 = positions r.
+Proof.
+  intros [L H]. unfold ps_from, positions. rewrite Nat.sub_0_r, L. apply filter_ext_in.
+  intros i Hi. apply in_seq in Hi. apply H. lia.
+Qed.
+
+Lemma repr_positions_upto d r : repr d r -> ps_upto d (length d) = positions r.
+Proof.
+  intros [L H]. unfold ps_upto, positions. rewrite L. apply filter_ext_in.
+  intros i Hi. apply in_seq in Hi. apply H. lia.
+Qed.
+
+Lemma repr_test d r pos : repr d r -> m_test d pos = r_test r pos.
+Proof.
+  intros [L H]. unfold m_test, r_test. rewrite L.
+  destruct (Nat.leb_spec (rsize r) pos); destruct (Nat.ltb_spec pos (rsize r)); try lia; [reflexivity|].
+  rewrite get_ok by lia. rewrite H by assumption. reflexivity.
+Qed.
+
+Lemma repr_eq d r o : repr d r -> m_eq d o = r_eq r o.
+Proof.
+  intros [L H]. apply eq_iff_eq_true. unfold m_eq, r_eq. rewrite veq_true_iff, andb_true_iff, forallb_forall.
+  rewrite Nat.eqb_eq. split.
+  - intros <-. split; [symmetry; exact L|]. intros i Hi. apply in_seq in Hi.
+    rewrite <- H by lia. apply eqb_reflx.
+  - intros [Ls Hb]. apply (nth_ext _ _ false false); [lia|]. intros i Hi.
+    rewrite H by lia. apply eqb_prop. apply Hb. apply in_seq. lia.
+Qed.
+
+Lemma repr_obs_agree d r : repr d r -> obs_agree d r.
+Proof.
+  intros R. pose proof R as [L H]. unfold obs_agree. splits.
+  - exact L.
+  - intros pos. apply repr_test. exact R.
+  - intros pos. apply (repr_test d r pos R).
+  - rewrite (repr_map d r R). unfold m_count. rewrite vcount_map. reflexivity.
+  - rewrite (repr_map d r R). rewrite m_any_existsb, existsb_map. reflexivity.
+  - transitivity (negb (m_any d)); [unfold m_none, m_any; destruct (vfind true d); reflexivity|].
+    unfold r_none, r_any. f_equal. rewrite (repr_map d r R). rewrite m_any_existsb, existsb_map. reflexivity.
+  - rewrite (repr_map d r R). rewrite m_all_forallb, forallb_map. reflexivity.
+  - unfold m_to_string, r_to_string. rewrite L. apply map_ext_in. intros k Hk. apply in_seq in Hk.
+    apply H. lia.
+  - unfold m_to_ulong, r_to_ulong. rewrite (repr_map d r R) at 1. rewrite to_ulong_loop_map.
+    fold (positions r). rewrite N.add_0_l. reflexivity.
+  - intros o. apply repr_eq. exact R.
+  - rewrite iter_fwd_list, (repr_positions_from d r R). reflexivity.
+  - rewrite iter_rev_list, (repr_positions_upto d r R). reflexivity.
+  - rewrite iter_back_list, (repr_positions_upto d r R). reflexivity.
+Qed.
+
+(* ------------------------------------------------------------------ *)
+(** * a stored bitset and its reference: one operation *)
+
+Lemma grown_len_ref d r pos : length d = rsize r -> grown_len d pos = rsize (r_grow r pos).
+Proof. intros L. unfold grown_len, r_grow. rewrite L. destruct (pos <? rsize r); reflexivity. Qed.
+
+Lemma grow_bit r pos i : i < rsize (r_grow r pos) -> rbit (r_grow r pos) i = bit0 r i.
+Proof.
+  unfold r_grow. destruct (pos <? rsize r); cbn; [|reflexivity].
+  intros Hi. unfold bit0. apply Nat.ltb_lt in Hi. rewrite Hi. reflexivity.
+Qed.
+
+Lemma repr_grow_upd d r pos v d' :
+  repr d r -> length d' = grown_len d pos ->
+  (forall j, nth j d' false = if j =? pos then v else nth j d false) ->
+  repr d' (r_upd (r_grow r pos) pos v).
+Proof.
+  intros R L' H'. pose proof R as [L H]. split.
+  - cbn. rewrite L'. apply grown_len_ref. exact L.
+  - cbn. intros i Hi. rewrite H'. destruct (i =? pos); [reflexivity|].
+    rewrite grow_bit by exact Hi. apply repr_bit0. exact R.
+Qed.
+
+Lemma repr_grow d r pos d' :
+  repr d r -> length d' = grown_len d pos -> (forall j, nth j d' false = nth j d false) ->
+  repr d' (r_grow r pos).
+Proof.
+  intros R L' H'. pose proof R as [L H]. split.
+  - rewrite L'. apply grown_len_ref. exact L.
+  - intros i Hi. rewrite H'. rewrite grow_bit by exact Hi. apply repr_bit0. exact R.
+Qed.
+
+Lemma repr_map_bits (f : bool -> bool) d r : repr d r -> repr (map f d) (r_map f r).
+Proof.
+  intros [L H]. split; cbn.
+  - rewrite map_length. exact L.
+  - intros i Hi. rewrite (nth_indep _ false (f false)) by (rewrite map_length; lia).
+    rewrite map_nth. f_equal. apply H. exact Hi.
+Qed.
+
+Lemma of_list_repr l : repr l (of_list l).
+Proof. split; cbn; auto. Qed.
+
+Definition step_agree (s : res (bs * outv)) (t : (rbv * outv) + err) : Prop :=
+  match s, t with
+  | Ok (d', v), inl (r', v') => v = v' /\ repr d' r'
+  | Err e, inr e' => e = e'
+  | _, _ => False
+  end.
+
+Lemma step_refines d r o : repr d r -> step_agree (step d o) (rstep r o).
+Proof.
+  intros R. pose proof R as [L H]. destruct o; cbn [step rstep].
+  - (* test *) unfold obs. rewrite (repr_test d r pos R). unfold r_test.
+    destruct (pos <? rsize r); cbn; auto.
+  - (* const [] *) unfold obs. change (m_index_const d pos) with (m_test d pos).
+    rewrite (repr_test d r pos R). unfold r_test. destruct (pos <? rsize r); cbn; auto.
+  - (* non-const [] read *)
+    destruct (m_index_read_pw d pos) as (d' & E & L' & H'). rewrite E. cbn.
+    split.
+    + f_equal. rewrite (repr_bit0 d r R). symmetry.
+      destruct (grown_spec d pos) as (G1 & G2 & _). rewrite G1, (grown_len_ref d r pos L) in G2.
+      apply grow_bit. exact G2.
+    + apply (repr_grow d r pos d' R L' H').
+  - (* non-const [] write *)
+    destruct (m_index_write_pw d pos v) as (d' & E & L' & H'). unfold upd. rewrite E. cbn.
+    split; [reflexivity|]. apply (repr_grow_upd d r pos v d' R L' H').
+  - (* set(pos, v) *)
+    destruct (m_set_pw d pos v) as (d' & E & L' & H'). unfold upd. rewrite E. cbn.
+    split; [reflexivity|]. apply (repr_grow_upd d r pos v d' R L' H').
+  - (* set() *) cbn. split; [reflexivity|]. apply (repr_map_bits (fun _ => true)). exact R.
+  - (* reset(pos) *)
+    destruct (m_reset_pw d pos) as (d' & E & L' & H'). unfold upd. rewrite E. cbn.
+    split; [reflexivity|]. apply (repr_grow_upd d r pos false d' R L' H').
+  - (* reset() *) cbn. split; [reflexivity|]. split; cbn; [reflexivity|]. intros i Hi. lia.
+  - (* flip(pos) *)
+    destruct (m_flip_pw d pos) as (d' & E & L' & H'). unfold upd. rewrite E. cbn.
+    split; [reflexivity|].
+    assert (Hb : nth pos d false = rbit (r_grow r pos) pos).
+    { rewrite (repr_bit0 d r R). symmetry.
+      destruct (grown_spec d pos) as (G1 & G2 & _). rewrite G1, (grown_len_ref d r pos L) in G2.
+      apply grow_bit. exact G2. }
+    rewrite <- Hb. apply (repr_grow_upd d r pos _ d' R L' H').
+  - (* flip() *) cbn. split; [reflexivity|]. apply (repr_map_bits negb). exact R.
+  - (* resize *)
+    unfold step_agree. split; [reflexivity|]. split.
+    + apply vresize_length.
+    + unfold r_resize. cbn [rsize rbit]. intros i Hi. unfold m_resize. rewrite vresize_nth. rewrite L.
+      apply Nat.ltb_lt in Hi. rewrite Hi. destruct (Nat.ltb_spec i (rsize r)); [apply H; assumption|reflexivity].
+  - (* assign *) cbn. split; [reflexivity|]. apply of_list_repr.
+  - (* == *) cbn. split; [|exact R]. f_equal. apply repr_eq. exact R.
+  - (* &= *)
+    destruct (m_and_assign_pw d o) as (d' & E & L' & H'). unfold upd. rewrite E. cbn.
+    split; [reflexivity|]. split; cbn; [lia|]. intros i Hi. rewrite H', H by exact Hi. reflexivity.
+  - (* |= *)
+    destruct (m_or_assign_pw d o) as (d' & E & L' & H'). unfold upd. rewrite E. cbn.
+    split; [reflexivity|]. split; cbn; [lia|]. intros i Hi. rewrite H', L.
+    apply Nat.ltb_lt in Hi. rewrite Hi. rewrite (repr_bit0 d r R). reflexivity.
+  - (* ^= *)
+    destruct (m_xor_assign_pw d o) as (d' & E & L' & H'). unfold upd. rewrite E. cbn.
+    split; [reflexivity|]. split; cbn; [lia|]. intros i Hi. rewrite H', L.
+    apply Nat.ltb_lt in Hi. rewrite Hi. rewrite (repr_bit0 d r R). reflexivity.
+  - (* & *)
+    unfold m_and. destruct (m_and_assign_pw d o) as (d' & E & L' & H'). unfold upd. rewrite E. cbn.
+    split; [reflexivity|]. split; cbn; [lia|]. intros i Hi. rewrite H', H by exact Hi. reflexivity.
+  - (* | *)
+    unfold m_or. destruct (m_or_assign_pw d o) as (d' & E & L' & H'). unfold upd. rewrite E. cbn.
+    split; [reflexivity|]. split; cbn; [lia|]. intros i Hi. rewrite H', L.
+    apply Nat.ltb_lt in Hi. rewrite Hi. rewrite (repr_bit0 d r R). reflexivity.
+  - (* ^ *)
+    unfold m_xor. destruct (m_xor_assign_pw d o) as (d' & E & L' & H'). unfold upd. rewrite E. cbn.
+    split; [reflexivity|]. split; cbn; [lia|]. intros i Hi. rewrite H', L.
+    apply Nat.ltb_lt in Hi. rewrite Hi. rewrite (repr_bit0 d r R). reflexivity.
+  - (* ~ *) cbn. split; [reflexivity|]. apply (repr_map_bits negb). exact R.
+  - (* <<= *)
+    rewrite shl_assign_eq_shl. unfold r_shl. rewrite <- L. fold (shift_noop d n).
+    destruct (shift_noop d n) eqn:G.
+    + unfold m_shl. fold (shift_noop d n). rewrite G. cbn. auto.
+    + destruct (m_shl_pw d n G) as (d' & E & L' & H'). unfold upd. rewrite E. cbn [bind step_agree].
+      split; [reflexivity|]. split; cbn [rsize rbit]; [lia|]. intros i Hi. rewrite H'.
+      destruct (Nat.ltb_spec i n); [reflexivity|]. apply H. lia.
+  - (* << *)
+    unfold r_shl. rewrite <- L. fold (shift_noop d n).
+    destruct (shift_noop d n) eqn:G.
+    + unfold m_shl. fold (shift_noop d n). rewrite G. cbn. auto.
+    + destruct (m_shl_pw d n G) as (d' & E & L' & H'). unfold upd. rewrite E. cbn [bind step_agree].
+      split; [reflexivity|]. split; cbn [rsize rbit]; [lia|]. intros i Hi. rewrite H'.
+      destruct (Nat.ltb_spec i n); [reflexivity|]. apply H. lia.
+  - (* >>= *)
+    rewrite shr_assign_eq_shr. unfold r_shr. rewrite <- L. fold (shift_noop d n).
+    destruct (shift_noop d n) eqn:G.
+    + unfold m_shr. fold (shift_noop d n). rewrite G. cbn. auto.
+    + destruct (m_shr_pw d n G) as (d' & E & L' & H'). unfold upd. rewrite E. cbn.
+      split; [reflexivity|]. split; cbn; [lia|]. intros i Hi. rewrite H'. apply repr_bit0. exact R.
+  - (* >> *)
+    unfold r_shr. rewrite <- L. fold (shift_noop d n).
+    destruct (shift_noop d n) eqn:G.
+    + unfold m_shr. fold (shift_noop d n). rewrite G. cbn. auto.
+    + destruct (m_shr_pw d n G) as (d' & E & L' & H'). unfold upd. rewrite E. cbn.
+      split; [reflexivity|]. split; cbn; [lia|]. intros i Hi. rewrite H'. apply repr_bit0. exact R.
+Qed.
+
+(* ------------------------------------------------------------------ *)
+(** * histories *)
+
+Lemma run_refines : forall ops d r, repr d r ->
+  Forall2 sout_agree (fst (run d ops)) (fst (rrun r ops)) /\
+  repr (snd (run d ops)) (snd (rrun r ops)).
+Proof.
+  induction ops as [|o ops IH]; intros d r R; cbn [run rrun].
+  - cbn. auto.
+  - pose proof (step_refines d r o R) as S. unfold step_agree in S.
+    destruct (step d o) as [[d' v]|e|f]; destruct (rstep r o) as [[r' v']|e']; try contradiction.
+    + destruct S as [-> R']. specialize (IH d' r' R').
+      destruct (run d' ops) as [outs df]. destruct (rrun r' ops) as [routs rf]. cbn [fst snd] in *.
+      destruct IH as [IH1 IH2]. split; [|exact IH2]. constructor; [|exact IH1].
+      cbn. splits; auto. apply repr_obs_agree. exact R'.
+    + subst e'. specialize (IH d r R).
+      destruct (run d ops) as [outs df]. destruct (rrun r ops) as [routs rf]. cbn [fst snd] in *.
+      destruct IH as [IH1 IH2]. split; [|exact IH2]. constructor; [|exact IH1].
+      cbn. splits; auto. apply repr_obs_agree. exact R.
+Qed.
+
+Lemma run_spec ops d r outs d' :
+  repr d r -> run d ops = (outs, d') ->
+  exists routs r', rrun r ops = (routs, r') /\
+    Forall2 sout_agree outs routs /\ repr d' r' /\ obs_agree d' r' /\
+    length outs = length ops /\ (forall f, ~ In (SFault f) outs).
+Proof.
+  intros R E. destruct (run_refines ops d r R) as [F R']. rewrite E in F, R'. cbn [fst snd] in *.
+  destruct (rrun r ops) as [routs rf] eqn:E2. cbn [fst snd] in *.
+  exists routs, rf. splits; auto.
+  - apply repr_obs_agree. exact R'.
+  - assert (length routs = length ops).
+    { clear -E2. revert r routs rf E2. induction ops as [|o ops IH]; intros r routs rf E2; cbn in E2.
+      - inversion E2. reflexivity.
+      - destruct (rstep r o) as [[r' v]|e].
+        + destruct (rrun r' ops) eqn:E3. inversion E2; subst. cbn. f_equal. eapply IH. exact E3.
+        + destruct (rrun r ops) eqn:E3. inversion E2; subst. cbn. f_equal. eapply IH. exact E3. }
+    assert (length outs = length routs) as -> by (clear -F; induction F; cbn; congruence).
+    assumption.
+  - intros f Hin. clear -F Hin. induction F as [|x y l l' Hxy F IH]; [contradiction|].
+    destruct Hin as [->|Hin]; [|auto]. cbn in Hxy. destruct y; contradiction.
+Qed.
+
+(** the same from construction: every vector<bool> has a reference, so does DynamicBitset(n) *)
+Lemma ctor_repr n : repr (m_ctor n) {| rsize := n; rbit := fun _ => false |}.
+Proof. split; cbn; [apply m_ctor_length|]. intros i _. apply m_ctor_nth. Qed.
+
+(* ------------------------------------------------------------------ *)
+(** * growth, refusal *)
+
+Lemma grown_len_gt d pos : pos < grown_len d pos /\ length d <= grown_len d pos.
+Proof.
+  unfold grown_len. pose proof (grow_size_gt pos). destruct (Nat.ltb_spec pos (length d)); lia.
+Qed.
+
+Lemma grow_never_faults d pos v :
+  (exists d', m_set d pos v = Ok d' /\ pos < length d' /\ length d <= length d' /\ nth pos d' false = v) /\
+  (exists d', m_reset d pos = Ok d' /\ pos < length d' /\ length d <= length d' /\ nth pos d' false = false) /\
+  (exists d', m_flip d pos = Ok d' /\ pos < length d' /\ length d <= length d' /\
+              nth pos d' false = negb (nth pos d false)) /\
+  (exists d', m_index_write d pos v = Ok d' /\ pos < length d' /\ length d <= length d' /\ nth pos d' false = v) /\
+  (exists d', m_index_read d pos = Ok (d', nth pos d false) /\ pos < length d' /\ length d <= length d').
+Proof.
+  destruct (grown_len_gt d pos) as [G1 G2]. splits.
+  - destruct (m_set_pw d pos v) as (d' & E & L & H). exists d'. splits; auto; try lia.
+    rewrite H, Nat.eqb_refl. reflexivity.
+  - destruct (m_reset_pw d pos) as (d' & E & L & H). exists d'. splits; auto; try lia.
+    rewrite H, Nat.eqb_refl. reflexivity.
+  - destruct (m_flip_pw d pos) as (d' & E & L & H). exists d'. splits; auto; try lia.
+    rewrite H, Nat.eqb_refl. reflexivity.
+  - destruct (m_index_write_pw d pos v) as (d' & E & L & H). exists d'. splits; auto; try lia.
+    rewrite H, Nat.eqb_refl. reflexivity.
+  - destruct (m_index_read_pw d pos) as (d' & E & L & H). exists d'. splits; auto; lia.
+Qed.
+
+(** positions that were there keep their bit when the bitset grows *)
+Lemma grow_keeps_bits d pos v d' j :
+  m_set d pos v = Ok d' -> j <> pos -> nth j d' false = nth j d false.
+Proof.
+  intros E N. destruct (m_set_pw d pos v) as (d1 & E1 & _ & H). rewrite E in E1. inversion E1; subst.
+  rewrite H. apply Nat.eqb_neq in N. rewrite N. reflexivity.
+Qed.
+
+Lemma readonly_access d pos :
+  (length d <= pos -> m_test d pos = Err EOutOfRange /\ m_index_const d pos = Err EOutOfRange) /\
+  (pos < length d -> m_test d pos = Ok (nth pos d false) /\ m_index_const d pos = Ok (nth pos d false)).
+Proof.
+  unfold m_test, m_index_const. split; intros H.
+  - apply Nat.leb_le in H. rewrite H. auto.
+  - rewrite get_ok by exact H. apply Nat.leb_gt in H. rewrite H. auto.
+Qed.
+
+(** the pinned guards: position = size is written / read without growing *)
+Lemma pinned_guard_faults d :
+  m_reset_pinned d (length d) = Fault OOBWrite /\
+  m_flip_pinned d (length d) = Fault OOBRead /\
+  (forall v, m_index_write_pinned d (length d) v = Fault OOBWrite) /\
+  m_index_read_pinned d (length d) = Fault OOBRead /\
+  m_index_const_pinned d (length d) = Fault OOBRead.
+Proof.
+  unfold m_reset_pinned, m_flip_pinned, m_index_write_pinned, m_index_read_pinned,
+    m_index_ref_pinned, m_index_const_pinned.
+  rewrite Nat.ltb_irrefl. rewrite (put_oob d (length d)) by lia. rewrite (get_oob d (length d)) by lia.
+  splits; auto. intros v. apply put_oob. lia.
+Qed.
+
+(* ------------------------------------------------------------------ *)
+(** * statements in the form used by Properties_C12.v *)
+
+Lemma filter_none {A} (f : A -> bool) l : (forall x, In x l -> f x = false) -> filter f l = [].
+Proof.
+  induction l as [|a l IH]; intros H; cbn; [reflexivity|].
+  rewrite (H a (or_introl eq_refl)). apply IH. intros x Hx. apply H. right. exact Hx.
+Qed.
+
+Lemma positions_all_zero r : (forall i, i < rsize r -> rbit r i = false) -> positions r = [].
+Proof. intros H. apply filter_none. intros x Hx. apply in_seq in Hx. apply H. lia. Qed.
+
+Lemma positions_sound r i : In i (positions r) <-> i < rsize r /\ rbit r i = true.
+Proof. unfold positions. rewrite filter_In, in_seq. intuition lia. Qed.
+
+Lemma compound_eq_binary d o n :
+  (m_and_assign d o = m_and d o /\ exists d', m_and d o = Ok d') /\
+  (m_or_assign d o = m_or d o /\ exists d', m_or d o = Ok d') /\
+  (m_xor_assign d o = m_xor d o /\ exists d', m_xor d o = Ok d') /\
+  (m_shl_assign d n = m_shl d n /\ exists d', m_shl d n = Ok d') /\
+  (m_shr_assign d n = m_shr d n /\ exists d', m_shr d n = Ok d').
+Proof.
+  splits; try reflexivity.
+  - destruct (m_and_assign_pw d o) as (d' & E & _). eauto.
+  - destruct (m_or_assign_pw d o) as (d' & E & _). eauto.
+  - destruct (m_xor_assign_pw d o) as (d' & E & _). eauto.
+  - apply shl_assign_eq_shl.
+  - apply m_shl_total.
+  - apply shr_assign_eq_shr.
+  - apply m_shr_total.
+Qed.
+
+Lemma iteration_spec d r : repr d r ->
+  iter_fwd d = Ok (map Z.of_nat (positions r)) /\
+  iter_rev d = Ok (map Z.of_nat (rev (positions r))) /\
+  iter_back d = Ok (map Z.of_nat (rev (positions r))).
+Proof. intros R. destruct (repr_obs_agree d r R) as (_&_&_&_&_&_&_&_&_&_&A&B&C). auto. Qed.
+
+Lemma iteration_nothing d :
+  (forall i, nth i d false = false) -> iter_fwd d = Ok [] /\ iter_rev d = Ok [] /\ iter_back d = Ok [].
+Proof.
+  intros H. destruct (iteration_spec d (of_list d) (of_list_repr d)) as (A & B & C).
+  rewrite (positions_all_zero (of_list d)) in A, B, C by (intros i _; apply H). auto.
+Qed.
+
+(** to_ulong never wraps: the value it returns is below 2^64 *)
+Definition below (b : nat) (l : list nat) : list nat := filter (fun i => i <? b) l.
+Definition has (b : nat) (l : list nat) : bool := existsb (fun i => i =? b) l.
+
+Lemma pow2sum_split b : forall l, NoDup l -> (forall i, In i l -> i < S b) ->
+  pow2sum l = (pow2sum (below b l) + (if has b l then 2 ^ N.of_nat b else 0))%N.
+Proof.
+  induction l as [|a l IHl]; intros ND Hl; [reflexivity|]. inversion ND as [|? ? Hn ND']; subst.
+  unfold below, has. cbn [pow2sum fold_right filter existsb]. fold (pow2sum l). fold (below b l). fold (has b l).
+  rewrite IHl by (auto; intros i Hi; apply Hl; right; exact Hi).
+  assert (Ha : a < S b) by (apply Hl; left; reflexivity).
+  destruct (Nat.ltb_spec a b); destruct (Nat.eqb_spec a b); try lia; cbn [orb].
+  - cbn [pow2sum fold_right]. fold (pow2sum (below b l)). lia.
+  - subst a. assert (has b l = false) as ->.
+    { apply not_true_is_false. intros C. apply existsb_exists in C. destruct C as (x & Hx & Ex).
+      apply Nat.eqb_eq in Ex. subst x. contradiction. }
+    rewrite N.shiftl_1_l. fold (pow2sum (below b l)). lia.
+Qed.
+
+Lemma pow2sum_bound : forall b l, (forall i, In i l -> i < b) -> NoDup l -> (pow2sum l < 2 ^ N.of_nat b)%N.
+Proof.
+  induction b as [|b IH]; intros l Hl ND.
+  - destruct l as [|a l]; [cbn; lia|]. specialize (Hl a (or_introl eq_refl)). lia.
+  - rewrite (pow2sum_split b l ND Hl).
+    assert (B : (pow2sum (below b l) < 2 ^ N.of_nat b)%N).
+    { apply IH.
+      - intros i Hi. apply filter_In in Hi. destruct Hi as [_ Hi]. apply Nat.ltb_lt in Hi. exact Hi.
+      - apply NoDup_filter. exact ND. }
+    replace (N.of_nat (S b)) with (N.succ (N.of_nat b)) by lia. rewrite N.pow_succ_r'.
+    destruct (has b l); lia.
+Qed.
+
+Lemma to_ulong_bound d n : m_to_ulong d = Ok n -> (n < 2 ^ 64)%N.
+Proof.
+  intros E. destruct (repr_obs_agree d (of_list d) (of_list_repr d)) as (_&_&_&_&_&_&_&_&U&_).
+  rewrite U in E. unfold r_to_ulong in E.
+  destruct (existsb (fun i => 64 <=? i) (positions (of_list d))) eqn:X; [discriminate|].
+  inversion E; subst. change 64%N with (N.of_nat 64). apply pow2sum_bound.
+  - intros i Hi. destruct (Nat.lt_ge_cases i 64) as [|Hge]; [assumption|].
+    assert (existsb (fun i => 64 <=? i) (positions (of_list d)) = true).
+    { apply existsb_exists. exists i. split; [exact Hi|]. apply Nat.leb_le. exact Hge. }
+    congruence.
+  - unfold positions. apply NoDup_filter. apply seq_NoDup.
+Qed.
